@@ -83,6 +83,11 @@ pub trait RangeNumber: FromStr + PartialOrd + Copy + MaybeToTokens {
     fn from_u64(v: u64) -> Option<Self>;
     fn from_i64(v: i64) -> Option<Self>;
     fn from_f64(v: f64) -> Option<Self>;
+
+    /// `inf` and `NaN` parse as floats but can't be used as bounds (nor be turned into literals).
+    fn is_finite_number(&self) -> bool {
+        true
+    }
 }
 
 // pub trait RangeInteger: RangeNumber {}
@@ -171,10 +176,13 @@ impl<T: RangeNumber> Range<T> {
 
     pub fn new(s: &str) -> Result<Self> {
         let parse = |s: &str| {
-            s.parse::<T>().map_err(|_| Error::RangeParse {
-                range: s.to_string(),
-                range_type: T::TYPE,
-            })
+            s.parse::<T>()
+                .ok()
+                .filter(T::is_finite_number)
+                .ok_or_else(|| Error::RangeParse {
+                    range: s.to_string(),
+                    range_type: T::TYPE,
+                })
         };
         let s = s.trim();
         if matches!(s, "_" | "..") {
@@ -1133,6 +1141,10 @@ mod range_number_impl {
 
                     fn from_f64(v: f64) -> Option<Self> {
                         Some(v as $num_type)
+                    }
+
+                    fn is_finite_number(&self) -> bool {
+                        self.is_finite()
                     }
                 }
 
